@@ -229,9 +229,18 @@ OpOut(L, R, O, blocks, xs) ==
         else: tree.map(einsum(sub), blocks, x)
    as a matrix between the flattened pytrees: block diagonal over the leaves *)
 OpMat(L, R, O, blocks, xs) ==
-  BlockDiag([i \in 1..Len(xs.it) |->
+  LET n == Len(xs.it)
+      ms == TLCEval([i \in 1..n |->
                EinMat(OpEin(L, R, O, blocks, xs, i), OpLeafBlock(blocks, xs, i).sh,
                       OpLeafBlock(blocks, xs, i).off, xs.it[i])])
+      roff == TLCEval([i \in 1..(n + 1) |-> SumSeq([k \in 1..(i - 1) |-> ms[k].r])])
+      coff == TLCEval([i \in 1..(n + 1) |-> SumSeq([k \in 1..(i - 1) |-> ms[k].c])])
+      RowLeaf(r) == CHOOSE i \in 1..n : roff[i] < r /\ r <= roff[i + 1]
+      ColLeaf(c) == CHOOSE i \in 1..n : coff[i] < c /\ c <= coff[i + 1]
+  IN IF n = 1 THEN ms[1]
+     ELSE RawMat(roff[n + 1], coff[n + 1], 1,
+                 LAMBDA r, c : IF RowLeaf(r) = ColLeaf(c)
+                               THEN ms[RowLeaf(r)].e[r - roff[RowLeaf(r)]][c - coff[ColLeaf(c)]] ELSE 0)
 
 (* Verdict on a claimed transpose  tl , tr -> to  built by transpose(): same blocks, in_structure =
    out_structure of the original (ys); m0 = matrix of the original:
